@@ -626,6 +626,11 @@ class FnAnalysis(object):
                 continue
             if names != {'CompletionCodeError'} or not h.name:
                 raise Other('handler for %s' % sorted(names))
+            if self._annotates_and_reraises(h):
+                # `except CompletionCodeError as e: e.<attr> = <call-free expression>; raise`: the same error object
+                # with the same code propagates - no code is handled here, nothing continues after it
+                # (the SDR chunk readers attach the reservation id their request ended up with, fixes/C13-2)
+                continue
             if not (len(h.body) == 1 and isinstance(h.body[0], ast.If)):
                 raise Other('CompletionCodeError handler is not a single if/else on the code')
             test = h.body[0]
@@ -659,6 +664,18 @@ class FnAnalysis(object):
         for a in reversed(alts):
             acc = ('alt', a, acc)
         return self.seq([body, acc, self.block(s.orelse)])
+
+    def _annotates_and_reraises(self, h):
+        b = h.body
+        if not (b and isinstance(b[-1], ast.Raise) and b[-1].exc is None and b[-1].cause is None):
+            return False
+        for s in b[:-1]:
+            if not (isinstance(s, ast.Assign) and len(s.targets) == 1 and isinstance(s.targets[0], ast.Attribute)
+                    and isinstance(s.targets[0].value, ast.Name) and s.targets[0].value.id == h.name
+                    and s.targets[0].attr not in ('cc', 'cc_desc', 'args')
+                    and not any(isinstance(x, (ast.Call, ast.Await, ast.Yield, ast.YieldFrom)) for x in ast.walk(s.value))):
+                return False
+        return True
 
     def _reraises(self, orelse, evar):
         if len(orelse) != 1:
